@@ -12,6 +12,8 @@ use sylvia::cw_std::Coin;
 pub mod f1;
 pub mod f2;
 pub mod f3;
+pub mod f5;
+pub mod remotes;
 pub mod twin;
 
 pub struct WorldPlan {
